@@ -63,7 +63,7 @@ def replay_and_judge(run, cases, crash, prefixes, shards=8):
             if os.path.exists(p):
                 os.remove(p)
         env = {"VH_CASES": cp, "VH_OUT": op, "VH_TRACE": tp, "VH_CRASH": "1" if crash else "0",
-               "GOLOG_LOG_LEVEL": "fatal", "VERIF_SEED": vlib.seed()}
+               "GOLOG_LOG_LEVEL": "error", "VERIF_SEED": vlib.seed()}
         r = vlib.run_bin(binp, ["-test.run", "^TestReplay$", "-test.timeout", "3000s", "-test.count", "1"],
                          env_extra=env, timeout=3100)
         recs = vlib.read_ndjson(op)
